@@ -10,7 +10,7 @@ from vfacts import strip, walk, method_name, call_obj, known_facts, is_node
 from .prov import chain, prov, shared_pointee, var_table, assignments, UNIQUE_FNS
 
 RULE = 'COW'
-FLOOR = 30
+FLOOR = 20
 ANCHORS = ['ExplicitTreeAutCore::uniqueClusterMap', 'ExplicitTreeAutCoreUtil::StateToTransitionClusterMap::uniqueCluster',
            'ExplicitTreeAutCoreUtil::TransitionCluster::uniqueTuplePtrSet', 'ExplicitFiniteAutCore::uniqueClusterMap',
            'ExplicitFiniteAutCore::StateToTransitionClusterMap::uniqueCluster']
